@@ -102,6 +102,11 @@ func (h *Helper) CompressFrameBuffer(buf Buffer, f ws.Frame) (ws.Frame, error) {
 	if !f.Header.Fin {
 		return f, fmt.Errorf("wsflate: fragmented messages are not allowed")
 	}
+	if f.Header.OpCode.IsControl() || f.Header.OpCode == ws.OpContinuation {
+		// The compression bit may be set only on the first frame of a data
+		// message, so the compressed payload could not be marked as such.
+		return f, fmt.Errorf("wsflate: control and continuation frames can not be compressed")
+	}
 	if err := h.CompressTo(buf, f.Payload); err != nil {
 		return f, err
 	}
